@@ -550,6 +550,11 @@ class Hooks:
         """Called after a subscript store / delete was recorded; may return a replacement state."""
         return None
 
+    def sequence_items(self, value):
+        """Elements of an opaque value the check knows the shape of (a fixed-length record), or
+        None.  Used for unpacking, star-expansion and iteration."""
+        return None
+
     def field(self, obj, name, st):
         return None
 
@@ -1191,6 +1196,10 @@ class Interp:
                 isinstance(a, Sym) and a.is_const() for a in it.args):
             vals = [int(a.const_value()) for a in it.args]
             return [Sym.const(i) for i in range(*vals)]
+        if isinstance(it, Opaque):
+            got = self.hooks.sequence_items(it)
+            if got is not None:
+                return list(got)
         return None
 
     def unroll_for(self, node, items, idx, st):
